@@ -9,13 +9,24 @@
    are universally quantified function arguments.
    /repo commit 430b0b7 made the removers test for empty and over-long input; before it the
    error-closure and exactness theorems below were refuted by IndexError / truncated bodies.
-   Not covered by theorems (partial): PEM only up to an opaque base64; compressed points only
-   relative to a square-root oracle; byte compatibility with OpenSSL is checked by the harness
-   (tools/props/C19.py) when an openssl binary is present. *)
-From Coq Require Import List Bool NArith ZArith.
+   Not covered by theorems (partial): PEM only up to an opaque base64; byte compatibility with
+   OpenSSL is checked by the harness (tools/props/C19.py) when an openssl binary is present.
+   Compressed points: the generic theorems take the modular square root as an oracle; the last
+   section instantiates it with the model of numbertheory.square_root_mod_prime
+   (Model/NumTheory.v), whose only remaining assumption is that numbertheory.jacobi does not
+   answer -1 on a quadratic residue (its correctness is quadratic reciprocity, not proved);
+   primality of the shipped field primes and group orders is proved by Pocklington certificates
+   checked inside Coq (Proofs/Pocklington.v, Proofs/PrimeCerts*.v).  This file carries the field
+   primes of at most 256 bits (12 curves); ALL 17 field primes and 17 group orders, and the
+   compressed round trip on all 16 curves with p = 3 (mod 4), are in Properties/C19Big.v, which
+   every run of the check builds (tools/props/C19.py: MODEL_TARGETS) but which lies outside the
+   cone that the thorough tier re-checks with coqchk (no bytecode VM: 50 minutes for those
+   certificates). *)
+From Coq Require Import List Bool NArith ZArith Znumtheory.
 From Coq Require Import Init.Byte.
-From Bec2 Require Import Base.Result Base.Bytes Gen.Consts Gen.KeyOids Model.Der Model.KeyCodec
-  Proofs.DerProofs Proofs.KeyCodecProofs.
+From Bec2 Require Import Base.Result Base.Bytes Base.Modp Gen.Consts Gen.KeyOids Model.Der Model.KeyCodec
+  Model.NumTheory Proofs.DerProofs Proofs.KeyCodecProofs Proofs.NumTheoryProofs Proofs.NumTheorySmall
+  Proofs.Pocklington Proofs.PrimeCerts Proofs.CurvePrimes Proofs.KeyCodecSqrtProofs.
 Import ListNotations.
 Open Scope N_scope.
 
@@ -473,6 +484,159 @@ Theorem C19_vk_pem_roundtrip_partial :
   vk_from_pem sqrt_mod order_ok ed_vk known_curves b64decode pem None true true = Ok (VkW (curve_of_row r) x y).
 Proof. exact vk_pem_roundtrip17. Qed.
 Print Assumptions C19_vk_pem_roundtrip_partial.
+
+(* ======== the modular square root of compressed points (numbertheory.py) =========================== *)
+
+(* pow(a, e, m) of the model (Barrett reduction, checked) is a^e mod m *)
+Theorem C19_powmod : forall a e m : Z, (0 <= e)%Z -> powmod a e m = (a ^ e mod m)%Z.
+Proof. exact powmod_spec. Qed.
+Print Assumptions C19_powmod.
+
+(* jacobi(a, n): the recursion ends on every input, with a value in {-1, 0, 1}, for odd n >= 3 (the
+   model's fuel is never exhausted); JacobiError otherwise *)
+Theorem C19_jacobi_terminates : forall a n : Z, (3 <= n)%Z -> (n mod 2 = 1)%Z ->
+  exists r, jacobi a n = Ok r /\ (r = -1 \/ r = 0 \/ r = 1)%Z.
+Proof. exact jacobi_terminates. Qed.
+Print Assumptions C19_jacobi_terminates.
+
+Theorem C19_jacobi_rejects : forall a n : Z, (n < 3 \/ n mod 2 <> 1)%Z -> jacobi a n = Err EJacobi.
+Proof. exact jacobi_rejects. Qed.
+Print Assumptions C19_jacobi_rejects.
+
+(* p % 4 == 3 (16 of the 17 shipped curves): every quadratic residue gets a square root in [0, p),
+   unless jacobi answers -1 *)
+Theorem C19_sqrt_3mod4 : forall p a : Z, prime p -> (p mod 4 = 3)%Z -> (0 <= a < p)%Z ->
+  (exists b, eqm p (b * b) a) -> jacobi a p <> Ok (-1)%Z ->
+  exists r, square_root_mod_prime a p = Ok r /\ eqm p (r * r) a /\ (0 <= r < p)%Z.
+Proof. exact sqrt_complete_3mod4. Qed.
+Print Assumptions C19_sqrt_3mod4.
+
+(* p % 8 == 5, both sub-branches (d = 1 and d = p - 1; the assert never fires); the second
+   supplementary law 2^((p-1)/2) = -1 needed for d = p - 1 is derived from the square root of -1 that
+   this sub-branch provides *)
+Theorem C19_sqrt_5mod8 : forall p a : Z, prime p -> (p mod 8 = 5)%Z -> (0 <= a < p)%Z ->
+  (exists b, eqm p (b * b) a) -> jacobi a p <> Ok (-1)%Z ->
+  exists r, square_root_mod_prime a p = Ok r /\ eqm p (r * r) a /\ (0 <= r < p)%Z.
+Proof. exact sqrt_complete_5mod8. Qed.
+Print Assumptions C19_sqrt_5mod8.
+
+(* soundness in EVERY branch (a = 0, p = 2, p % 4 = 3, p % 8 = 5, the Lucas/Cipolla loop with its
+   "p is not prime" test): for prime p an answer is a square root.  Partial: the argument must be a
+   quadratic residue or be recognised as a non-residue by jacobi; missing for the unconditional
+   statement is "jacobi a p = -1 for every non-residue a" (quadratic reciprocity). *)
+Theorem C19_sqrt_sound_partial : forall p a r : Z, prime p ->
+  (exists b, eqm p (b * b) a) \/ jacobi a p = Ok (-1)%Z ->
+  square_root_mod_prime a p = Ok r -> eqm p (r * r) a /\ (0 <= r < p)%Z.
+Proof. exact sqrt_sound. Qed.
+Print Assumptions C19_sqrt_sound_partial.
+
+Theorem C19_sqrt_non_residue_rejected : forall p a : Z, (3 <= p)%Z -> (0 < a < p)%Z ->
+  jacobi a p = Ok (-1)%Z -> square_root_mod_prime a p = Err ESquareRoot.
+Proof. exact sqrt_non_residue_rejected. Qed.
+Print Assumptions C19_sqrt_non_residue_rejected.
+
+(* no hypothesis about jacobi for the 62 primes below 300 (closed computation over every argument):
+   a root in [0, p) exactly for the residues, SquareRootError for every non-residue, in all branches *)
+Theorem C19_sqrt_small_primes : forall p a : N, p < 300 -> a < p -> trial_prime (Z.of_N p) = true ->
+  match square_root_mod_prime (Z.of_N a) (Z.of_N p) with
+  | Ok r => ((r * r) mod Z.of_N p = Z.of_N a /\ 0 <= r < Z.of_N p)%Z
+  | Err e => e = ESquareRoot /\ forall b, (0 <= b < Z.of_N p)%Z -> ((b * b) mod Z.of_N p)%Z <> Z.of_N a
+  end.
+Proof. exact sqrt_small_primes. Qed.
+Print Assumptions C19_sqrt_small_primes.
+
+Theorem C19_small_primes_are_prime : forall p : Z, trial_prime p = true -> prime p.
+Proof. exact trial_prime_sound. Qed.
+Print Assumptions C19_small_primes_are_prime.
+
+(* ======== primality certificates ====================================================================== *)
+
+(* Pocklington's criterion as checked by pock_main: F | N-1 fully factored into the primes q of l,
+   N < F*F, a^(N-1) = 1 (mod N), gcd (a^((N-1)/q) - 1, N) = 1 for every q *)
+Theorem C19_pocklington_criterion : forall (N a : Z) (l : list (Z * Z)),
+  (forall qe, In qe l -> prime (fst qe)) -> pock_main N a l = true -> prime N.
+Proof. exact pock_main_sound. Qed.
+Print Assumptions C19_pocklington_criterion.
+
+(* the recursive checker is sound *)
+Theorem C19_pocklington : forall (c : cert) (N : Z), pock_check N c = true -> prime N.
+Proof. exact pock_check_sound. Qed.
+Print Assumptions C19_pocklington.
+
+(* the committed certificate table of this file's cone passes the checker (11 field primes; the
+   tables of the larger numbers: Proofs/PrimeCertsBig*.v) *)
+Theorem C19_certificates_checked : certs_ok Proofs.PrimeCerts.prime_certs = true /\
+  forall N c, In (N, c) Proofs.PrimeCerts.prime_certs -> prime N.
+Proof. split; [exact Proofs.PrimeCerts.prime_certs_ok | exact Proofs.PrimeCerts.prime_certs_prime]. Qed.
+Print Assumptions C19_certificates_checked.
+
+(* the field primes of the generated curve rows: each value generated from curves.py is looked up in
+   the committed certificate table; a changed constant finds no certificate.  Partial only in that
+   the five field primes above 256 bits (p_big: brainpoolP320r1/P384r1/P512r1, NIST P-384, P-521) are
+   carried by C19_primes in Properties/C19Big.v, together with all 17 group orders *)
+Theorem C19_primes_partial : forall r, In r wrows -> named p_big (w_name r) = false ->
+  prime (Z.of_N (w_p r)).
+Proof. exact wrows_p_small_prime. Qed.
+Print Assumptions C19_primes_partial.
+
+Example C19_primes_partial_count :
+  length (filter (fun r => negb (named p_big (w_name r))) wrows) = 12%nat /\
+  named p_big (w_name w_NIST192p) = false /\ named p_big (w_name w_NIST224p) = false /\
+  named p_big (w_name w_NIST256p) = false /\ named p_big (w_name w_SECP256k1) = false.
+Proof. repeat split; vm_compute; reflexivity. Qed.
+Print Assumptions C19_primes_partial_count.
+
+(* ======== compressed points with the model's square root ============================================= *)
+
+(* any curve object with a certified-prime field p = 3 (mod 4) *)
+Theorem C19_point_roundtrip_compressed_3mod4_any :
+  forall order_ok ed_vk c x y s validate ve,
+  prime (Z.of_N (c_p c)) -> c_p c mod 4 = 3 ->
+  point_valid order_ok c x y -> enc_allowed Compressed ve = true -> 2 <= orderlen (c_p c) ->
+  jacobi (alpha_of c x) (Z.of_N (c_p c)) <> Ok (-1)%Z ->
+  vk_to_string c x y Compressed = Ok s ->
+  vk_from_string sqrt_mod_model order_ok ed_vk (CW c) s validate ve = Ok (VkW c x y).
+Proof. exact vk_string_roundtrip_compressed_3mod4. Qed.
+Print Assumptions C19_point_roundtrip_compressed_3mod4_any.
+
+(* the shipped curves: primality comes from the certificates; remaining hypothesis: jacobi does not
+   answer -1 on alpha = x^3 + a x + b (a quadratic residue, as the point is on the curve).  Here for
+   the curves of this file's certificate table; for all 16 curves with p = 3 (mod 4) in C19Big.v *)
+Theorem C19_point_roundtrip_compressed_3mod4 :
+  forall order_ok ed_vk r x y s validate ve, In r wrows -> named p_big (w_name r) = false ->
+  w_p r mod 4 = 3 ->
+  point_valid order_ok (curve_of_row r) x y -> enc_allowed Compressed ve = true ->
+  jacobi (alpha_of (curve_of_row r) x) (Z.of_N (w_p r)) <> Ok (-1)%Z ->
+  vk_to_string (curve_of_row r) x y Compressed = Ok s ->
+  vk_from_string sqrt_mod_model order_ok ed_vk (CW (curve_of_row r)) s validate ve = Ok (VkW (curve_of_row r) x y).
+Proof.
+  intros ok edv r x y s validate ve Hin Hsmall H4 PV Hve Hj Hs.
+  apply (vk_string_roundtrip_compressed_3mod4 ok edv (curve_of_row r) x y s validate ve); try assumption.
+  - apply wrows_p_small_prime; assumption.
+  - apply (curve17_sizes r Hin).
+Qed.
+Print Assumptions C19_point_roundtrip_compressed_3mod4.
+
+(* 16 of the 17 shipped field primes are 3 (mod 4); NIST P-224 (p = 1 mod 8) takes the Lucas/Cipolla loop *)
+Example C19_3mod4_count : length (filter (fun r => w_p r mod 4 =? 3) wrows) = 16%nat /\ length wrows = 17%nat.
+Proof. split; vm_compute; reflexivity. Qed.
+Print Assumptions C19_3mod4_count.
+
+(* the generator of secp256k1 in compressed form decodes, through the model's own square root, to the
+   generator; the other tag byte gives the opposite point; an abscissa without a point is rejected *)
+Example C19_compressed_nonvacuous :
+  let c := curve_of_row w_SECP256k1 in let x := c_gx c in let y := c_gy c in
+  let ok := fun (_ : curve) (_ _ : N) => true in
+  let edv := fun (w : bool) (e : bytes) => Ok (VkEd w e) in
+  jacobi (alpha_of c x) (Z.of_N (c_p c)) = Ok 1%Z /\
+  vk_from_string sqrt_mod_model ok edv (CW c) (x02 :: be 32 x) true encs_all = Ok (VkW c x y) /\
+  vk_from_string sqrt_mod_model ok edv (CW c) (x03 :: be 32 x) true encs_all = Ok (VkW c x (c_p c - y)) /\
+  vk_from_string sqrt_mod_model ok edv (CW c) (x02 :: be 32 5) true encs_all = Err EMalformedPoint.
+Proof.
+  cbv zeta. split; [vm_compute; reflexivity|]. split; [vm_compute; reflexivity|].
+  split; vm_compute; reflexivity.
+Qed.
+Print Assumptions C19_compressed_nonvacuous.
 
 (* ======== non-vacuity ==================================================================================== *)
 
